@@ -769,6 +769,28 @@ func c06Workloads(r *Run) {
 					}
 				}(i)
 			}
+			// a stream cancelled while its handler is still sending: the messages already under way arrive
+			// after the client has reset and forgotten the stream — its reset stays its last envelope
+			for i := 0; i < 2; i++ {
+				wg.Add(1)
+				go func(i int) {
+					defer wg.Done()
+					ctx, cancel := context.WithCancel(context.Background())
+					defer cancel()
+					ctx = metadata.AppendToOutgoingContext(ctx, "x-tag", fmt.Sprintf("busy%d-%d", round, i), "x-prog", "burst:40")
+					cs, err := rig.CC.NewStream(ctx, descBidi, mBidi)
+					if err != nil {
+						return
+					}
+					recvB(cs)
+					cancel()
+					for {
+						if _, err := recvB(cs); err != nil {
+							return
+						}
+					}
+				}(i)
+			}
 			// cancellations: a held stream cancelled by its caller, one with a deadline
 			for i := 0; i < 3; i++ {
 				wg.Add(1)
